@@ -403,7 +403,94 @@ pub fn run(tier: Tier) {
         });
     }
 
+    // ---- third-party blocks in the deprecated layout (signature version 0), which only
+    // Biscuit::unsafe_deprecated_deserialize admits: the external signature still has to be the stated key's
+    // signature over the payload and the previous block's next key
+    let legacy_cases = AtomicUsize::new(0);
+    let legacy_accepted_valid = AtomicUsize::new(0);
+    {
+        let mut cfgs = vec![];
+        for root_alg in ALGS {
+            for ext_alg in ALGS {
+                for variant in ["valid", "signed-by-another-key", "zeroed", "other-payload", "made-for-another-previous-key", "truncated", "v1-layout-under-version-0"] {
+                    cfgs.push((root_alg, ext_alg, variant));
+                }
+            }
+        }
+        cfgs.par_iter().for_each(|(root_alg, ext_alg, variant)| {
+            legacy_cases.fetch_add(1, Ordering::Relaxed);
+            let r = guard(|| -> Result<(bool, bool), String> {
+                let rootk = root(*root_alg);
+                let n0 = key(Alg::Ed, ROLE_NEXT, 60);
+                let n1 = key(Alg::Ed, ROLE_NEXT, 61);
+                let extk = ext_key(*ext_alg, 0);
+                let other = ext_key(*ext_alg, 1);
+                let auth_payload = schema::Biscuit::decode(&biscuit_auth::builder::BiscuitBuilder::new().code("auth(0);").unwrap().build_with_key_pair(&rootk, biscuit_auth::datalog::SymbolTable::new(), &n0).unwrap().to_vec().unwrap()[..]).unwrap().authority.block;
+                let tp_payload = {
+                    // a block payload with its own symbol table, as a third-party block has
+                    let t = biscuit_auth::builder::BiscuitBuilder::new().code("group(\"admin\");").unwrap().build_with_key_pair(&rootk, biscuit_auth::datalog::SymbolTable::new(), &n0).unwrap();
+                    schema::Biscuit::decode(&t.to_vec().unwrap()[..]).unwrap().authority.block
+                };
+                let n0pk = proto_key(&n0.public());
+                let n1pk = proto_key(&n1.public());
+                // authority, version 0 (ed25519 only) or 1
+                let av = if *root_alg == Alg::Ed { 0 } else { 1 };
+                let am = payload_block(av, true, &auth_payload, &n0pk, None, &[])?;
+                let authority = schema::SignedBlock { block: auth_payload, next_key: n0pk.clone(), signature: raw_sign(&rootk, &am), external_signature: None, version: if av > 0 { Some(av) } else { None } };
+                let good = payload_external_v0(&tp_payload, &n0pk);
+                let ext_sig = match *variant {
+                    "valid" => raw_sign(&extk, &good),
+                    "signed-by-another-key" => raw_sign(&other, &good),
+                    "zeroed" => vec![0u8; raw_sign(&extk, &good).len()],
+                    "other-payload" => raw_sign(&extk, &payload_external_v0(b"something else", &n0pk)),
+                    "made-for-another-previous-key" => raw_sign(&extk, &payload_external_v0(&tp_payload, &n1pk)),
+                    "truncated" => {
+                        let mut x = raw_sign(&extk, &good);
+                        x.pop();
+                        x
+                    }
+                    _ => raw_sign(&extk, &payload_external(&tp_payload, &authority.signature)),
+                };
+                let bm = payload_block(0, false, &tp_payload, &n1pk, Some(&ext_sig), &authority.signature)?;
+                let block = schema::SignedBlock { block: tp_payload, next_key: n1pk, signature: raw_sign(&n0, &bm), external_signature: Some(schema::ExternalSignature { signature: ext_sig, public_key: proto_key(&extk.public()) }), version: None };
+                let tok = schema::Biscuit { root_key_id: None, authority, blocks: vec![block], proof: schema::Proof { content: Some(schema::proof::Content::NextSecret(n1.private().to_bytes().to_vec())) } };
+                let bytes = tok.encode_to_vec();
+                let safe = Biscuit::from(&bytes, rootk.public()).is_ok();
+                let unsafe_ok = match Biscuit::unsafe_deprecated_deserialize(&bytes, rootk.public()) {
+                    Ok(t) => {
+                        // attributed to the stated key
+                        let _ = t.external_public_keys();
+                        true
+                    }
+                    Err(_) => false,
+                };
+                Ok((safe, unsafe_ok))
+            });
+            let desc = || json!({"root": root_alg.name(), "external_key": ext_alg.name(), "external_signature": variant});
+            match r {
+                Err(pn) => ctx.violation_lazy(format!("C07/panic/{}", panic_site(&pn)), || json!({"case": desc(), "panic": pn})),
+                Ok(Err(e)) => ctx.violation_lazy("C07/legacy-third-party/construction-failed".to_string(), || json!({"case": desc(), "error": e})),
+                Ok(Ok((safe, unsafe_ok))) => {
+                    if safe {
+                        ctx.violation_lazy(format!("C07/legacy-third-party-block-accepted-by-Biscuit::from/{variant}"), desc);
+                    }
+                    if *variant == "valid" {
+                        if unsafe_ok {
+                            legacy_accepted_valid.fetch_add(1, Ordering::Relaxed);
+                        } else {
+                            ctx.observe("a well-formed legacy third-party block is refused by unsafe_deprecated_deserialize".to_string());
+                        }
+                    } else if unsafe_ok {
+                        ctx.violation_lazy(format!("C07/legacy-third-party-block-accepted-with-invalid-external-signature/{variant}"), desc);
+                    }
+                }
+            }
+        });
+    }
+
     let cov = json!({
+        "legacy_layout_third_party_configurations": legacy_cases.load(Ordering::Relaxed),
+        "legacy_layout_valid_blocks_accepted_by_the_deprecated_loader": legacy_accepted_valid.load(Ordering::Relaxed),
         "third_party_scope_resolution_configurations": scope_cfgs.load(Ordering::Relaxed),
         "third_party_scope_resolution_outcomes": scope_outcomes.into_inner().unwrap(),
         "states": states.len(),
